@@ -229,6 +229,36 @@ func (m *Models) Reach(fn *ssa.Function) map[*ssa.Function]bool {
 	return r
 }
 
+// ReachRO: like Reach, for rules that ask what a command can reach (not what is held meanwhile): the calls a locking
+// template makes through its function parameters count at the template's call sites.
+func (m *Models) ReachRO(fn *ssa.Function) map[*ssa.Function]bool {
+	r := map[*ssa.Function]bool{}
+	stack := []*ssa.Function{fn}
+	for len(stack) > 0 {
+		f := stack[len(stack)-1]
+		stack = stack[:len(stack)-1]
+		if r[f] {
+			continue
+		}
+		r[f] = true
+		for _, in := range instrsOf(f) {
+			ci, ok := in.(ssa.CallInstruction)
+			if !ok {
+				continue
+			}
+			if _, isGo := in.(*ssa.Go); isGo {
+				continue
+			}
+			for _, g := range m.p.CalleesReach(ci) {
+				if !r[g] && m.p.InPkg(g) {
+					stack = append(stack, g)
+				}
+			}
+		}
+	}
+	return r
+}
+
 // constString returns the value of a constant string SSA value.
 func constString(v ssa.Value) (string, bool) {
 	c, ok := v.(*ssa.Const)
@@ -248,3 +278,45 @@ func constInt(v ssa.Value) (int64, bool) {
 }
 
 func quote(s string) string { return strconv.Quote(s) }
+
+// intMapLiteralValues: g is a package-level map initialised by a literal whose values are all integer constants, and the
+// package never writes to it; the values.
+func (p *Prog) intMapLiteralValues(g *ssa.Global) ([]int64, bool) {
+	e := p.globalInit(g.Name())
+	cl, ok := e.(*ast.CompositeLit)
+	if !ok {
+		return nil, false
+	}
+	var out []int64
+	for _, el := range cl.Elts {
+		kv, ok := el.(*ast.KeyValueExpr)
+		if !ok {
+			return nil, false
+		}
+		tv := p.Pkg.TypesInfo.Types[kv.Value]
+		if tv.Value == nil || tv.Value.Kind() != constant.Int {
+			return nil, false
+		}
+		k, exact := constant.Int64Val(tv.Value)
+		if !exact {
+			return nil, false
+		}
+		out = append(out, k)
+	}
+	// never written: no MapUpdate / delete on a load of g
+	for _, fn := range p.SrcFuncs() {
+		for _, in := range instrsOf(fn) {
+			switch x := in.(type) {
+			case *ssa.MapUpdate:
+				if u, ok := x.Map.(*ssa.UnOp); ok && u.X == ssa.Value(g) {
+					return nil, false
+				}
+			case *ssa.Store:
+				if x.Addr == ssa.Value(g) && fn.Name() != "init" {
+					return nil, false
+				}
+			}
+		}
+	}
+	return out, len(out) > 0
+}
